@@ -143,4 +143,28 @@ theorem eraseUpF_reaches (h : Heap) (hinv : Inv h) :
           · exact ihl _ hb
       exact key _ _ hmem
 
+/-- coherence carries over to a state whose caches are a subset and whose kept entries see the same subtree -/
+theorem coherent_transfer (sem : Sem) (s s' : CState)
+    (hc : ∀ i, s'.cache i = [] ∨ s'.cache i = s.cache i)
+    (hcont : ∀ i, s.cache i ≠ [] → s'.cache i ≠ [] → content s'.heap i = content s.heap i)
+    (hobj : ∀ o, IsResult s o → (s'.heap.node o).kids = (s.heap.node o).kids ∧
+      payload (s'.heap.node o) = payload (s.heap.node o))
+    (h : Coherent sem s) : Coherent sem s' := by
+  intro i q r hmem
+  have hne' : s'.cache i ≠ [] := fun e => by rw [e] at hmem; cases hmem
+  have heq : s'.cache i = s.cache i := by
+    rcases hc i with x | x
+    · exact absurd x hne'
+    · exact x
+  rw [heq] at hmem
+  have hne : s.cache i ≠ [] := fun e => by rw [e] at hmem; cases hmem
+  have hct := hcont i hne hne'
+  have := h i q r hmem
+  cases r with
+  | value c => simp only at this ⊢; unfold freshValue at this ⊢; rw [hct]; exact this
+  | object o =>
+    simp only at this ⊢
+    obtain ⟨a, b⟩ := hobj o ⟨i, q, hmem⟩
+    rw [hct, a, payload_bindings b]; exact this
+
 end TdVerif.C06
